@@ -54,7 +54,7 @@ def scaleRow (r : Rat) : List String → List Cell → List Cell
 def scaleFrame (r : Rat) (f : Frame) : Frame := ⟨f.cols, f.rows.map (scaleRow r f.cols)⟩
 
 /-- the osu preview point: a time — unless it is negative: `PreviewTime: -1` is osu's "no preview point" marker, not
-a time, so it belongs to "all other fields are unchanged" (open finding N13a: the code divides it like a time) -/
+a time, so it belongs to "all other fields are unchanged" (finding D41, repaired: the code divided it like a time) -/
 def scalePreview (r : Rat) (p : Rat) : Rat := if p < 0 then p else p / r
 
 def scaleChart (g : Game) (r : Rat) (c : Chart) : Chart :=
@@ -154,7 +154,7 @@ def samplesOk (f : Frame) : Bool :=
 def chartOk (g : Game) (c : Chart) : Bool :=
   listsOk (c.lists.map (·.2)) &&
   (if g = .osu then (match c.samples, c.preview with
-                     | some sm, some pv => samplesOk sm && decide (0 ≤ pv)
+                     | some sm, some _ => samplesOk sm
                      | _, _ => false) else true)
 
 def setOk (k : SetKind) (g : Game) (s : MapSet) : Bool :=
